@@ -32,11 +32,11 @@ CLAIMED = {
          "layer never reads are length-preserving surrogates except in a literal sample; independence of other connections is checked by the oracle only.",
     technique="Coq induction over frame lists and operation scripts; H1 differential run with fault injection"),
  "C11": dict(category="proof", design_ref="7 (C11)",
-    text="8 Coq theorems (all closed) on a concurrent machine running the transcribed stop_task / wait_for_condition / get_next_signal / sleep / loop-task programs at "
+    text="9 Coq theorems (all closed) on a concurrent machine running the transcribed stop_task / wait_for_condition / get_next_signal (blocking, timed and the non-blocking form timeout=0) / sleep / loop-task programs, with and without a second waiter on the same receiver (7 variants x signal environment), at "
          "synchronisation granularity: once stop() has returned the task is never parked un-notified; a wait begun after stop never parks and raises; loop_finalize always runs; "
-         "exactly one outcome; progress needs neither time nor signals and is bounded (zero virtual time); no deadlock. Proved for executions of any length by reflection on the "
+         "exactly one outcome; progress needs neither time nor signals and is bounded (zero virtual time); no deadlock; a queued signal wakes a waiting reader. Proved for executions of any length by reflection on the "
          "finite reachable set (computed and checked closed by vm_compute). Tie: the real _TaskThread/QMI_Task/QMI_LoopTask/QMI_SignalReceiver run under a deterministic scheduler; "
-         "every schedule with <= 2 (quick) / 3 (thorough) preemptions is enumerated and its recorded synchronisation trace must be accepted step by step by the model with the same outcome.",
+         "every schedule with <= 2 (quick) / 3 (thorough) preemptions is enumerated, plus random schedules with every source line of the protocol functions as a switch point; each recorded synchronisation trace must be accepted step by step by the model with the same outcome; order-based oracle: a wait that starts after the stop flag was set ends with the stop exception.",
     note="Trusted: Coq kernel+vm_compute; dsched (cooperative Lock/RLock/Condition/Event with monitor semantics - it defines what a schedule is); finite abstraction stated in the theorems "
          "(queue empty/non-empty, one wait per run, time-outs fire only while parked); atomicity of code between two synchronisation operations of one thread.",
     technique="finite-state reflection (closed reachable set) in Coq + schedule enumeration with trace acceptance"),
